@@ -653,10 +653,14 @@ func (r *loopRun) step() {
 	if r.accepting && len(r.conns) < lMaxConns {
 		acts = append(acts, act{6, r.envAccept})
 	}
-	if r.accepting {
+	// Ending the accept loop before there are two connections is left to the
+	// early injection of runLoopScenario; otherwise a quarter of the scenarios
+	// would be over after their first step.
+	young := r.accepting && len(r.conns) < 2
+	if r.accepting && !young {
 		acts = append(acts, act{1, func() { r.envAerr(g.chance(1, 2)) }})
 	}
-	if !r.ctxEnded {
+	if !r.ctxEnded && !young {
 		acts = append(acts, act{1, r.envCtxEnd})
 	}
 	if len(openK) > 0 {
